@@ -242,7 +242,7 @@ func TestVerifC11Matcher(t *testing.T) {
 		"answer-after-reset-removed", "malformed-length", "malformed-nonhex4", "malformed-nonhex8-head", "malformed-empty-label",
 		"not-under-suffix", "matches-prefix-twin-not-listed", "text-crlf", "text-duplicate", "text-comment-only",
 		"repeated-prefix-with-zero-hash-listed", "repeated-prefix-with-ones-hash-listed", "answer-three-names-one-prefix",
-		"adjacent-prefix-of-listed-name", "storage-used-before-first-list")
+		"adjacent-prefix-of-listed-name", "storage-used-before-first-list", "list-has-line-of-255-or-more")
 	st.Finish(t)
 
 	pool := vc11Pool()
@@ -286,12 +286,19 @@ func TestVerifC11Matcher(t *testing.T) {
 
 		for i := range strgs {
 			lists[i] = vc11GenList(t, fmt.Sprintf("s%d.v0", i), pool, zero, ones)
-			history = append(history, fmt.Sprintf("storage %d (%s) new list=%q", i, suffixes[i], lists[i].text))
+			history = append(history, fmt.Sprintf("storage %d (%s) new list=%s", i, suffixes[i], vc11ShowText(lists[i].text)))
 			st.Class(lists[i].forms...)
 
 			var err error
 			if rapid.Bool().Draw(t, "viaNew") {
 				strgs[i], err = hashprefix.NewStorage(lists[i].text)
+				if err != nil && vc11HasLongLine(lists[i].text) {
+					// A loud refusal of a list with an overlong line: no list.
+					st.Class("reset-refused-long-line")
+					lists[i] = vc11List{listed: map[string]bool{}}
+					strgs[i], err = hashprefix.NewStorage("")
+				}
+
 				if err != nil {
 					t.Fatalf("NewStorage: %v\nhistory:\n%s", err, strings.Join(history, "\n"))
 				}
@@ -312,7 +319,10 @@ func TestVerifC11Matcher(t *testing.T) {
 				st.Class("storage-used-before-first-list")
 
 				n, rerr := strgs[i].Reset(lists[i].text)
-				if rerr != nil || n != lists[i].count {
+				if rerr != nil && vc11HasLongLine(lists[i].text) {
+					st.Class("reset-refused-long-line")
+					lists[i] = vc11List{listed: map[string]bool{}}
+				} else if rerr != nil || n != lists[i].count {
 					t.Fatalf("Reset = %d, %v; want %d, nil\nhistory:\n%s", n, rerr, lists[i].count, strings.Join(history, "\n"))
 				}
 			}
@@ -330,12 +340,18 @@ func TestVerifC11Matcher(t *testing.T) {
 			case kind == 0:
 				i := rapid.IntRange(0, 1).Draw(t, "resetWhich")
 				prev[i] = lists[i].listed
+				before := lists[i]
 				lists[i] = vc11GenList(t, fmt.Sprintf("s%d.op%d", i, op), pool, zero, ones)
-				history = append(history, fmt.Sprintf("storage %d (%s) reset list=%q", i, suffixes[i], lists[i].text))
+				history = append(history, fmt.Sprintf("storage %d (%s) reset list=%s", i, suffixes[i], vc11ShowText(lists[i].text)))
 				st.Class(lists[i].forms...)
 
 				n, err := strgs[i].Reset(lists[i].text)
-				if err != nil || n != lists[i].count {
+				if err != nil && vc11HasLongLine(lists[i].text) {
+					// A loud refusal leaves the previous list in effect.
+					st.Class("reset-refused-long-line")
+					history = append(history, fmt.Sprintf("reset refused: %v", err))
+					lists[i] = before
+				} else if err != nil || n != lists[i].count {
 					t.Fatalf("Reset = %d, %v; want %d, nil\nhistory:\n%s", n, err, lists[i].count, strings.Join(history, "\n"))
 				}
 
